@@ -240,3 +240,140 @@ lemma(
     trusted_reason="process-wide cache + pyproj: BOUNDED native check in fresh interpreters, not a proof",
     native_samples=_hist_samples,
 )
+
+
+# =====================================================================================================
+# BOUNDED native catalogue of the value-type laws on real objects (incl. the types whose equality rests on
+# shapely / numpy / pickle, which no record-level proof reaches): Geometry, GCPGeoBox, GridSpec,
+# VariableSizedTiles -- and, as a cross-check of the proofs, the record types
+# =====================================================================================================
+
+
+def _value_families():
+    import numpy as np
+    from affine import Affine
+
+    from odc.geo import geom, xy_, yx_
+    from odc.geo.gcp import GCPGeoBox, GCPMapping
+    from odc.geo.geobox import GeoBox, GeoboxTiles
+    from odc.geo.gridspec import GridSpec
+    from odc.geo.roi import Tiles, VariableSizedTiles
+    from odc.geo.types import Resolution, Shape2d
+
+    A = Affine(10.0, 0, 500_000.0, 0, -10.0, 6_000_000.0)
+    fam = {}
+    fam["Geometry"] = [
+        lambda: geom.point(1.0, 2.0, "EPSG:4326"),
+        lambda: geom.point(1.0, 2.0, "EPSG:3857"),
+        lambda: geom.point(1.0, 2.0, None),
+        lambda: geom.point(1.0, 2.5, "EPSG:4326"),
+        lambda: geom.box(0, 0, 2, 3, "EPSG:4326"),
+        lambda: geom.box(0, 0, 2, 3.000001, "EPSG:4326"),
+        lambda: geom.polygon([(0, 0), (2, 0), (2, 3), (0, 3), (0, 0)], "EPSG:4326"),
+        lambda: geom.line([(0, 0), (2, 3)], "EPSG:4326"),
+        lambda: geom.multipoint([(0, 0), (2, 3)], "EPSG:4326"),
+    ]
+    fam["BoundingBox"] = [lambda: geom.BoundingBox(0, 1, 2, 3, "EPSG:4326"), lambda: geom.BoundingBox(0, 1, 2, 3, None), lambda: geom.BoundingBox(0, 1, 2, 3.5, "EPSG:4326"), lambda: geom.BoundingBox(0, 1, 2, 3, "EPSG:3857")]
+    fam["GeoBox"] = [lambda: GeoBox((7, 9), A, "EPSG:32633"), lambda: GeoBox((7, 8), A, "EPSG:32633"), lambda: GeoBox((7, 9), A * Affine.translation(1, 0), "EPSG:32633"), lambda: GeoBox((7, 9), A, "EPSG:32634"), lambda: GeoBox((7, 9), A * Affine.translation(1e-7, 0), "EPSG:32633")]
+    pix = np.asarray([(x, y) for y in (0.0, 10.0, 20.0) for x in (0.0, 15.0, 30.0)])
+    wld = np.asarray([(100 + 2.0 * x + 0.01 * x * y, 50 - 1.5 * y + 0.02 * x) for x, y in pix])
+    fam["GCPGeoBox"] = [
+        lambda: GCPGeoBox((20, 30), GCPMapping(pix.copy(), wld.copy(), "EPSG:4326")),
+        lambda: GCPGeoBox((20, 31), GCPMapping(pix.copy(), wld.copy(), "EPSG:4326")),
+        lambda: GCPGeoBox((20, 30), GCPMapping(pix.copy(), wld.copy() + 0.5, "EPSG:4326")),
+        lambda: GCPGeoBox((20, 30), GCPMapping(pix.copy(), wld.copy(), "EPSG:4326"), Affine.translation(1, 2)),
+    ]
+    fam["Tiles"] = [lambda: Tiles((10, 10), (4, 4)), lambda: Tiles((11, 10), (4, 4)), lambda: Tiles((10, 10), (4, 5)), lambda: Tiles((12, 12), (4, 4))]
+    fam["VariableSizedTiles"] = [lambda: VariableSizedTiles(((2, 3), (4,))), lambda: VariableSizedTiles(((2, 3), (3, 1))), lambda: VariableSizedTiles(((3, 2), (4,))), lambda: VariableSizedTiles(((2, 3, 0), (4,)))]
+    fam["GeoboxTiles"] = [lambda: GeoboxTiles(GeoBox((7, 9), A, "EPSG:32633"), (4, 4)), lambda: GeoboxTiles(GeoBox((7, 9), A, "EPSG:32633"), (4, 5)), lambda: GeoboxTiles(GeoBox((8, 9), A, "EPSG:32633"), (4, 4)), lambda: GeoboxTiles(GeoBox((7, 9), A, "EPSG:32633"), ((3, 4), (9,)))]
+    fam["GridSpec"] = [
+        lambda: GridSpec("EPSG:3857", (100, 100), Resolution(10, -10)),
+        lambda: GridSpec("EPSG:3857", (100, 101), Resolution(10, -10)),
+        lambda: GridSpec("EPSG:3857", (100, 100), Resolution(10, -10), origin=xy_(5.0, 0.0)),
+        lambda: GridSpec("EPSG:3857", (100, 100), Resolution(10, -10), flipy=True),
+        lambda: GridSpec("EPSG:32633", (100, 100), Resolution(10, -10)),
+    ]
+    fam["XY"] = [lambda: xy_(1.0, 2.0), lambda: xy_(1.0, 2.5), lambda: yx_(1.0, 2.0), lambda: xy_(1, 2)]
+    fam["Shape2d"] = [lambda: Shape2d(x=3, y=4), lambda: Shape2d(x=4, y=3), lambda: Shape2d(x=3, y=5)]
+    return fam
+
+
+def _value_samples():
+    def gen():
+        for name in _value_families():
+            yield dict(type_name=name)
+
+    return "10 value types x families of 3-9 near-identical objects (differing in one field), each built twice, copied and pickled: all pairs and triples", gen()
+
+
+def _value_oracle(args, run=None):
+    import copy
+    import itertools
+    import pickle
+
+    from dask.base import tokenize
+
+    name = args["type_name"]
+    makers = _value_families()[name]
+    objs = [mk() for mk in makers]
+    twins = [mk() for mk in makers]  # the same construction a second time
+    fails = []
+
+    def eq(a, b):
+        return bool(a == b)
+
+    def hashable(o):
+        try:
+            hash(o)
+            return True
+        except TypeError:
+            return False
+
+    # same construction twice / copy / pickle
+    for i, (o, t) in enumerate(zip(objs, twins)):
+        if not eq(o, o):
+            fails.append(f"post:{name}: == is reflexive (member {i})")
+        clones = {"pickled clone": pickle.loads(pickle.dumps(o)), "deep copy": copy.deepcopy(o)}
+        for how, c in clones.items():
+            if not (eq(o, c) and eq(c, o)):
+                fails.append(f"post:{name}: a {how} compares equal to the original (member {i})")
+            elif hashable(o) and hash(o) != hash(c):
+                fails.append(f"post:{name}: a {how} has the same hash (member {i})")
+            if tokenize(o) != tokenize(c):
+                fails.append(f"post:{name}: a {how} shares the dask token of the original (member {i})")
+        if not (eq(o, t) and eq(t, o)):
+            fails.append(f"post:{name}: the same construction twice gives equal objects (member {i})")
+        elif hashable(o) and hash(o) != hash(t):
+            fails.append(f"post:{name}: equal objects have equal hashes (member {i}, built twice)")
+    everything = objs + twins
+    for a, b in itertools.combinations(range(len(everything)), 2):
+        x, y = everything[a], everything[b]
+        if eq(x, y) != eq(y, x):
+            fails.append(f"post:{name}: == is symmetric (members {a}, {b})")
+        if eq(x, y) and hashable(x) and hashable(y) and hash(x) != hash(y):
+            fails.append(f"post:{name}: equal objects have equal hashes (members {a}, {b})")
+        if (not eq(x, y)) and tokenize(x) == tokenize(y):
+            fails.append(f"post:{name}: objects that compare unequal never share a dask token (members {a % len(objs)}, {b % len(objs)})")
+        # (the property asks for a shared token only between a value and its copy / clone / identical
+        #  construction -- checked above; xy_(1, 2) == xy_(1.0, 2.0) may tokenise differently)
+    for a, b, c in itertools.permutations(range(len(everything)), 3):
+        x, y, z = everything[a], everything[b], everything[c]
+        if eq(x, y) and eq(y, z) and not eq(x, z):
+            fails.append(f"post:{name}: == is transitive (members {a}, {b}, {c})")
+            break
+    import re
+
+    return sorted({re.sub(r" \((member|members) [^)]*\)$", "", f) for f in fails})
+
+
+contract(
+    "odc.geo.geobox:GeoBox.__eq__@catalogue",
+    ["C19"],
+    kind="lemma",
+    inputs=dict(),
+    body=lambda: None,
+    verify=False,
+    trusted_reason="equality / hash / pickle / dask token of real objects, incl. types resting on shapely geometry equality, numpy arrays and pickle: BOUNDED native catalogue",
+    native_samples=_value_samples,
+    native_oracle=_value_oracle,
+)
